@@ -331,6 +331,11 @@ class _ViewProp:
         if type(value) is str:
             return dict(step, tag="text", x=_text(value, "assigned text")), None
         tn = type(value).__name__
+        e = _by_obj.get(id(value))
+        if e is not None and e[0] is s and e[2] == "" and e[3] is value and e[4] == kind:
+            # the assigned object is one this session already follows (a view read earlier, a kept object):
+            # the assignment takes its value; the slot stays what it is (www_authenticate rebinds it)
+            return dict(step, tag="alias", n=e[1]), None
         if kind == "set":
             if tn == "HeaderSet":
                 if value.on_update is not None:
